@@ -159,7 +159,7 @@ def expectedTypeDefs : List (String × String) := [
   ("TypeAttributes", "NewHashType(TypeMemberName, DefaultNotUndefType(), nil)"),
   ("TypeEquality", "newVariantType2(TypeMemberName, TypeMemberNames)")]
 
-/-- decidable side condition: no member is listed twice (the original defect), every member is optional, the six members an
+/-- decidable side condition: no member is listed twice (the original defect), every member is optional, the seven members an
     object definition of the universe uses have the value types the model's `sinst` implements, every key `InitFromHash`
     reads is a declared member, and the definitions those types rest on are the ones the model was written against -/
 def schemaOKb (s : Schema) : Bool :=
@@ -168,6 +168,7 @@ def schemaOKb (s : Schema) : Bool :=
   s.memberTy "name" == some .typeName &&
   s.memberTy "parent" == some .typeOrTypeName &&
   s.memberTy "attributes" == some .attributes &&
+  s.memberTy "constants" == some .constants &&
   s.memberTy "equality" == some .equality &&
   s.memberTy "equality_include_type" == some .boolean &&
   s.memberTy "serialization" == some .memberNames &&
